@@ -1,4 +1,7 @@
 import N2k.Props.C02
+import N2k.Props.C09
+import N2k.Props.C10
+import N2k.Props.C18
 /-!
 # C07 — No bus traffic makes the library touch memory unsafely, hang or over-deliver
 
@@ -35,5 +38,20 @@ theorem C07_slot_index_safe (st : St) (now : Nat)
 one received frame or a chain of received frames of one PGN, source and sequence id (restated from C02). -/
 theorem C07_chain_bound (f0 : Frame) (w : List Frame) (h : IsChain f0 w) : w.length ≤ 32 :=
   (N2k.C02.C02_one_sequence_id f0 w h).1
+
+/-- **C07_devlist_no_fault.** For EVERY history of messages handed to the optional device list (claims with NAME 0 or
+all-ones, takeovers, product / configuration / PGN-list messages of any size in any order, repeated with other
+sizes) no handler run returns a Fault: no use after free, no double free, no null dereference, no write outside
+the configuration-information block, no source index ≥ 254 (restated from C18). -/
+theorem C07_devlist_no_fault (h : List (N2k.DeviceList.Env × N2k.DeviceList.Msg)) :
+    ∃ s, N2k.DeviceList.run N2k.DeviceList.State.init h = .ok s := by
+  obtain ⟨s, hs, _⟩ := N2k.C18.C18_one_entry_per_name h
+  exact ⟨s, hs⟩
+
+/-- **C07_ack_length_safe.** Whatever group-function message arrives (pair counts 0..255, truncated, any content),
+the Acknowledge the node builds has at most 134 bytes, so it never overruns the 223-byte payload (from C09). -/
+theorem C07_ack_length_safe (g : N2k.GF.GSt) (m : N2k.Send.Msg) (i : Nat) (hb : ∀ b ∈ m.data, b < 256) (data : List Nat)
+    (h : (N2k.GF.decideAct g m i).ackData = some data) : data.length ≤ 223 :=
+  (N2k.C09.C09_ack_length_safe g m i hb data h).2
 
 end N2k.C07
